@@ -7,6 +7,7 @@ import (
 	"go/token"
 	"go/types"
 	"os"
+	"path/filepath"
 	"sort"
 	"strings"
 
@@ -370,4 +371,51 @@ func (p *Program) Stats() Stats {
 }
 
 // DepFieldOrModule resolves a field of a named struct type in a module package.
-func (p *Program) DepFieldOrModule(pkg, typ, field string) *types.Var { return p.Field(pkg, typ, field) }
+func (p *Program) DepFieldOrModule(pkg, typ, field string) *types.Var {
+	return p.Field(pkg, typ, field)
+}
+
+// UnanalysedFiles lists the non-test Go source files under the module root that are not part of any loaded module
+// package (excluded by a build constraint, an ignored file, or a directory that go list did not return). A static
+// check only sees what was parsed, so callers fail the check when this is not empty.
+func (p *Program) UnanalysedFiles() ([]string, int) {
+	loaded := map[string]bool{}
+	for _, pk := range p.Pkgs {
+		for _, f := range pk.CompiledGoFiles {
+			loaded[filepath.Clean(f)] = true
+		}
+		for _, f := range pk.GoFiles {
+			loaded[filepath.Clean(f)] = true
+		}
+	}
+	var missing []string
+	n := 0
+	filepath.Walk(p.Dir, func(path string, info os.FileInfo, err error) error {
+		if err != nil {
+			return nil
+		}
+		base := filepath.Base(path)
+		if info.IsDir() {
+			if path != p.Dir && (strings.HasPrefix(base, ".") || strings.HasPrefix(base, "_") || base == "vendor" || base == "testdata") {
+				return filepath.SkipDir
+			}
+			if path != p.Dir {
+				if _, e := os.Stat(filepath.Join(path, "go.mod")); e == nil {
+					return filepath.SkipDir // nested module
+				}
+			}
+			return nil
+		}
+		if !strings.HasSuffix(base, ".go") || strings.HasSuffix(base, "_test.go") {
+			return nil
+		}
+		n++
+		if !loaded[filepath.Clean(path)] {
+			rel, _ := filepath.Rel(p.Dir, path)
+			missing = append(missing, rel)
+		}
+		return nil
+	})
+	sort.Strings(missing)
+	return missing, n
+}
